@@ -18,10 +18,17 @@ Not demanded (left out of the oracle, see DESIGN C06 and the guide's rule 2):
     without vanishing altogether (km*s/m, Hz*s2, anything with a dimensionless unit such as %): "units whose
     dimensions cancel are dropped" and "a product adds exponents" can both be read into the statement there.
     Base value and dimensions are still checked.
-  * units reported by a negation (statement is silent); a bare number or unit-less quantity +/- an angle
-    (rad, deg, sr...: statement is silent, the library has a special number->rad rule);
+  * units reported by a negation (statement is silent);
   * division by a zero magnitude, 0**negative, negative**non-integer; arrays of different shape;
     numpy scalars / arrays as the "plain number"; Decimal magnitudes; temperature and logarithmic units.
+
+Round-2 additions: (1) a bare number / unit-less quantity +- an angle (rad, mrad, deg, sr ...) MUST be refused like
+any other sum of different dimension (rad is one of the eight base dimensions); (2) compound operands that carry a
+dimensionless unit with a table factor != 1 next to a dimensional one (%*m, ppth*km, [pi]*s), so that quotients whose
+dimensional units cancel while %/ppth/[pi] stays are enumerated; (3) CHAINS: an operand may itself be the result of
+earlier arithmetic - ((a*|/ b) op c), (c op (a*|/ b)), ((a**p) op c), (c op (a**p)) over a small unit alphabet -
+because results can differ from freshly built quantities (kept dimensionless units, unreduced exponents).  The inner
+operation of a chain is never a sum (no cancellation), so the 1e-12 tolerance stays meaningful.
 """
 import math
 from fractions import Fraction as F
@@ -59,6 +66,10 @@ CORE = [
     (("", "statC", 1),),                                      # fractional dimensions
     (("", "dyn", F(1, 2)), ("c", "m", 1)),                    # dyn1:2*cm  (definition of statC)
     (("", "%", 1),),                                          # dimensionless unit with a factor
+    (("m", "rad", 1),),                                       # prefixed angle (number +- mrad must be refused)
+    (("", "%", 1), ("", "m", 1)),                             # %*m, ppth*km, [pi]*s: a dimensionless unit with a
+    (("", "ppth", 1), ("k", "m", 1)),                         #   factor next to a dimensional unit that can cancel
+    (("", "[pi]", 1), ("", "s", 1)),
 ]
 WINDOW_SIZE = 12          # upper bound; windows are balanced
 SCALARS = [0.0, 2.0, -3.0, 0.5, 1e10]
@@ -77,6 +88,21 @@ EXPONENTS = [(2, 1), (3, 1), (1, 1), (0, 1), (-1, 1), (-2, 1),
              (1, 2), (3, 2), (-1, 2), (5, 2), (1, 3), (2, 3), (-2, 3), (1, 4), (3, 4),
              (2, 4), (4, 2), (-3, 6)]                         # unreduced pairs
 POW_MAGS = [2.0, 0.5, 1e10, -3.0, 0.0, [1.0, 2.0, 4.0], ARR_A]
+# chains: operands that are results of earlier arithmetic
+PLAIN2 = "plain"                                               # marker: the plain number 2 as third operand
+CHAIN_UNITS = [(("", "%", 1),), (("", "ppth", 1),), (("", "[pi]", 1),), (("", "m", 1),), (("c", "m", 1),),
+               (("k", "m", 1),), (("", "s", 1),), (("m", "s", 1),), (("", "m", 2),), ()]
+CHAIN_UNITS_THOROUGH = CHAIN_UNITS + [(("", "[alpha]", 1),), (("", "[euler]", 1),), (("m", "m", 1),),
+                                      (("", "Hz", 1),), (("", "min", 1),), (("", "J", 1),), (("", "erg", 1),),
+                                      (("", "m", -1),)]
+CHAIN_MAGS = [(50.0, 2.0, 4.0), ([1.0, 2.0, 4.0], [2.0, 4.0, 8.0], [0.5, -3.0, 2.0])]
+CHAIN_POW_UNITS = [(("", "m", 2),), (("", "m", 4),), (("c", "m", 2),), (("", "s", 2),), (("", "m", 3),),
+                   (("", "m", 1),), (("", "%", 1),), (("", "J", 2),)]
+CHAIN_POWERS = [((1, 2), "pair"), ((1, 2), "float"), ((1, 2), "Fraction"), ((1, 3), "pair"), ((1, 3), "float"),
+                ((2, 1), "int"), ((-1, 1), "int")]
+CHAIN_POW_THIRD = [(("", "m", 1),), (("c", "m", 1),), (("", "s", 1),), (("", "m", 2),), (), (("", "%", 1),),
+                   (("", "J", 1),)]
+CHAIN_POW_MAGS = [(4.0, 1.0), ([1.0, 4.0, 9.0], [2.0, -1.0, 0.5])]
 
 _UNITS = None          # list of unit tuples: CORE first, then the window entries
 _NCORE = len(CORE)
@@ -158,6 +184,8 @@ def _mk(o):
     from scinumtools.units import Quantity
     if "plain" in o:
         return o["plain"]
+    if "k" in o:                                   # operand = result of earlier arithmetic (chain)
+        return _execute(o)
     u = _uj(o["u"])
     x = o["x"]
     x = list(x) if isinstance(x, (list, tuple)) else x
@@ -166,21 +194,32 @@ def _mk(o):
     return Quantity(x)
 
 
+class _NotDemanded(Exception):
+    pass
+
+
 def _ref(o):
-    """(unit map, dims, base value as ndarray, is_plain)"""
+    """(natural unit map, dims, base value as ndarray, is_plain, units_known)
+
+    units_known is False when the operand is an earlier result whose reported units the statement does not pin."""
     if "plain" in o:
-        return {}, tuple([F(0)] * R.NDIM), np.asarray(float(o["plain"])), True
+        return {}, tuple([F(0)] * R.NDIM), np.asarray(float(o["plain"])), True, True
+    if "k" in o:
+        if o.get("op") in ("add", "sub"):
+            raise HarnessError("a sum as inner operation of a chain is outside the tolerance model")
+        e = _expect_inner(o)
+        if e is None or e.get("refuse"):
+            raise _NotDemanded()
+        return e["natural"], tuple(e["dims"]), np.asarray(e["base"], dtype=float), False, e["units"] is not None
     m = R.umap(_uj(o["u"]))
-    return m, R.map_dims(m), np.asarray(o["x"], dtype=float) * R.map_factor(m), False
+    return m, R.map_dims(m), np.asarray(o["x"], dtype=float) * R.map_factor(m), False, True
 
 
-def _pure_angle(d):
-    return d[7] != 0 and all(x == 0 for x in d[:7])
-
-
-def _has_zero(o):
-    x = o["plain"] if "plain" in o else o["x"]
-    return bool(np.any(np.asarray(x, dtype=float) == 0))
+def _natural(em, ed):
+    """per-unit exponent map of a result; when all dimensions vanish the dimensional units are gone"""
+    if R.nodim(ed):
+        return {key: e for key, e in em.items() if R.nodim(R.UNIT[key[1]]["dims"])}
+    return dict(em)
 
 
 # ------------------------------------------------------------------------------------------------ oracle
@@ -200,14 +239,23 @@ def _tolist(v):
 
 
 def _expect(case):
-    """-> dict(refuse=bool) or dict(base, scale, dims, units|None (None = bookkeeping not demanded), tags) or None
-    when the case is outside what the statement demands."""
+    """-> dict(refuse=bool) or dict(base, scale, dims, units|None (None = bookkeeping not demanded), natural, tags)
+    or None when the case is outside what the statement demands."""
+    try:
+        return _expect_inner(case)
+    except _NotDemanded:
+        return None
+
+
+def _expect_inner(case):
     k = case["k"]
     tags = ["kind:" + k]
+    if any("k" in case[x] for x in ("a", "b") if x in case):
+        tags.append("chained")
     if k == "bin":
         op = case["op"]
-        ma, da, ba, pa = _ref(case["a"])
-        mb, db, bb, pb = _ref(case["b"])
+        ma, da, ba, pa, ka = _ref(case["a"])
+        mb, db, bb, pb, kb = _ref(case["b"])
         tags += ["op:" + op]
         if pa:
             tags.append("left:plain")
@@ -219,24 +267,33 @@ def _expect(case):
             tags.append("same-units" if ma == mb else "mixed-units")
         if op in ("add", "sub"):
             if da != db:
-                if (not ma and _pure_angle(db)) or (not mb and _pure_angle(da)):
-                    return None                                    # number +- angle: not demanded
+                # includes a bare number / unit-less quantity +- an angle: rad is a base dimension
+                if (not ma and R.nodim(da)) or (not mb and R.nodim(db)):
+                    tags.append("number-vs-dimensional")
                 return dict(refuse=True, tags=tags + ["different-dimension"])
             base = ba + bb if op == "add" else ba - bb
             scale = np.maximum(np.abs(ba), np.abs(bb))
-            return dict(base=base, scale=scale, dims=da, units=dict(ma), tags=tags)
-        if op == "div" and _has_zero(case["b"]):
+            if not ka:
+                tags.append("units-not-demanded")
+            return dict(base=base, scale=scale, dims=da, units=dict(ma) if ka else None, natural=dict(ma), tags=tags)
+        if op == "div" and np.any(bb == 0):
             return None
-        em = R.map_add(ma, mb, 1 if op == "mul" else -1)
-        ed = R.map_dims(em)
+        sign = 1 if op == "mul" else -1
+        em = R.map_add(ma, mb, sign)
+        ed = tuple(x + sign * y for x, y in zip(da, db))
         with np.errstate(all="ignore"):
             base = ba * bb if op == "mul" else ba / bb
-        return dict(base=base, scale=0.0, dims=ed, units=_bookkeeping(em, ed, tags), tags=tags)
+        units = _bookkeeping(em, ed, tags)
+        if not (ka and kb):
+            if units is not None:
+                tags.append("units-not-demanded")
+            units = None
+        return dict(base=base, scale=0.0, dims=ed, units=units, natural=_natural(em, ed), tags=tags)
     if k == "neg":
-        ma, da, ba, _ = _ref(case["a"])
-        return dict(base=-ba, scale=0.0, dims=da, units=None, tags=tags + ["op:neg"])
+        ma, da, ba, _, _ = _ref(case["a"])
+        return dict(base=-ba, scale=0.0, dims=da, units=None, natural=dict(ma), tags=tags + ["op:neg"])
     if k == "pow":
-        ma, da, ba, _ = _ref(case["a"])
+        ma, da, ba, _, ka = _ref(case["a"])
         n, d = case["p"]
         p = F(n, d)
         tags += ["op:pow", "exp-form:" + case["form"],
@@ -255,7 +312,12 @@ def _expect(case):
             return None
         em = R.map_scale(ma, p)
         ed = tuple(x * p for x in da)
-        return dict(base=base, scale=0.0, dims=ed, units=_bookkeeping(em, ed, tags), tags=tags)
+        units = _bookkeeping(em, ed, tags)
+        if not ka:
+            if units is not None:
+                tags.append("units-not-demanded")
+            units = None
+        return dict(base=base, scale=0.0, dims=ed, units=units, natural=_natural(em, ed), tags=tags)
     raise HarnessError("unknown case kind %r" % (k,))
 
 
@@ -268,6 +330,8 @@ def _bookkeeping(em, ed, tags):
                 tags.append("fold")
             return {}                      # every unit is dimensional and all dimensions cancel: all dropped
         tags.append("units-not-demanded")
+        if dimensional and any(R.UNIT[key[1]]["factor"] != 1.0 for key in em if key not in dimensional):
+            tags.append("fold-keeps-dimensionless")       # e.g. 50 % * 2 m / 4 cm
         return None
     if R.independent(em):
         return dict(em)
@@ -354,6 +418,8 @@ def check_case(case):
     label = "ok"
     if "fold" in tags:
         label = "ok:folded"
+    elif "fold-keeps-dimensionless" in tags:
+        label = "ok:fold-keeps-dimensionless"
     elif exp["units"] is None:
         label = "ok:units-not-demanded"
     return None, label
@@ -372,12 +438,49 @@ def _observe(res):
 # ------------------------------------------------------------------------------------------------ enumeration
 NBIN = 64
 NUNA = 16
+NCHAIN = 32
 
 
 def plan(tier, seed):
     init_worker()
     return ([("bin", tier, seed, k) for k in range(NBIN)] +
+            [("chain", tier, seed, k) for k in range(NCHAIN)] +
             [("una", tier, seed, k) for k in range(NUNA)])
+
+
+def _third(u, x):
+    return _plain(2) if u == PLAIN2 else _opnd(R.unit(*u), x)
+
+
+def _chain_cases(k, tier):
+    """operands that are results: ((a op1 b) op2 c), (c op2 (a op1 b)), ((a**p) op2 c), (c op2 (a**p))"""
+    units = CHAIN_UNITS_THOROUGH if tier == "thorough" else CHAIN_UNITS
+    idx = 0
+    for ua in units:
+        for ub in units:
+            for uc in list(units) + [PLAIN2]:
+                mine = idx % NCHAIN == k
+                idx += 1
+                if not mine:
+                    continue
+                for xa, xb, xc in CHAIN_MAGS:
+                    for op1 in ("mul", "div"):
+                        inner = dict(k="bin", op=op1, a=_opnd(R.unit(*ua), xa), b=_opnd(R.unit(*ub), xb))
+                        for op2 in OPS:
+                            yield dict(k="bin", op=op2, a=inner, b=_third(uc, xc))
+                            yield dict(k="bin", op=op2, a=_third(uc, xc), b=inner)
+    for ua in CHAIN_POW_UNITS:
+        for (n, d), form in CHAIN_POWERS:
+            for uc in CHAIN_POW_THIRD + [PLAIN2]:
+                mine = idx % NCHAIN == k
+                idx += 1
+                if not mine:
+                    continue
+                for xa, xc in CHAIN_POW_MAGS:
+                    inner = dict(k="pow", a=_opnd(R.unit(*ua), xa), p=[n, d], form=form)
+                    for op2 in OPS:
+                        yield dict(k="bin", op=op2, a=inner, b=_third(uc, xc))
+                        yield dict(k="bin", op=op2, a=_third(uc, xc), b=inner)
 
 
 def _bin_cases(units, k, tier):
@@ -426,17 +529,27 @@ def _una_cases(units, k):
                     yield dict(k="pow", a=o, p=[n, d], form=form)
 
 
+def _leaves(o):
+    if "plain" in o:
+        return
+    if "k" in o:
+        for key in ("a", "b"):
+            if key in o:
+                yield from _leaves(o[key])
+    else:
+        yield o
+
+
 def _trivial(case):
-    if case["k"] == "bin":
-        return all(("plain" in o) or not o["u"] for o in (case["a"], case["b"]))
-    return not case["a"]["u"]
+    return not any(leaf["u"] for leaf in _leaves(case))
 
 
 def run_shard(desc):
     kind, tier, seed, k = desc
     sh = Shard(PROPERTY)
     units, w, nwin = _alphabet(tier, seed)
-    gen = _bin_cases(units, k, tier) if kind == "bin" else _una_cases(units, k)
+    gen = (_bin_cases(units, k, tier) if kind == "bin" else _chain_cases(k, tier) if kind == "chain"
+           else _una_cases(units, k))
     for case in gen:
         bad, label = check_case(case)
         if label == "not-demanded":
@@ -445,7 +558,7 @@ def run_shard(desc):
         sh.evaluations += 1
         if not _trivial(case):
             sh.nontrivial += 1
-        sh.count(case["k"] + (":" + case["op"] if "op" in case else "") + ":" + label)
+        sh.count(("chain" if kind == "chain" else case["k"]) + (":" + case["op"] if "op" in case else "") + ":" + label)
         if case["k"] == "pow":
             sh.count("pow-form:" + case["form"] + (":integral" if case["p"][1] == 1 else ":nonintegral"))
         if bad:
@@ -481,6 +594,12 @@ def finish(total, tier, seed):
         "float non-integral exponents": h.get("pow-form:float:nonintegral", 0),
         "pair exponents": h.get("pow-form:pair:nonintegral", 0),
         "negations": tot("neg:"),
+        "quotients that fold but keep a dimensionless unit with a factor":
+            tot("bin:div", ":ok:fold-keeps-dimensionless") + tot("bin:div:bad"),
+        "chained quotients that fold but keep a dimensionless unit":
+            tot("chain:div", ":ok:fold-keeps-dimensionless") + tot("chain:div:bad"),
+        "chained sums computed": tot("chain:add:ok") + tot("chain:add:bad"),
+        "chained sums refused": tot("chain:add", ":refused") + tot("chain:add", ":refusal:accepted"),
     }
     empty = [name for name, v in need.items() if v == 0]
     if empty:
@@ -493,18 +612,24 @@ def finish(total, tier, seed):
                     pairs="all ordered pairs of the unit alphabet; full magnitude grid on core x core (4 pairs for "
                           "sums that must be refused), %d magnitude pairs elsewhere"
                           % len(WIN_MAGS_THOROUGH if tier == "thorough" else WIN_MAGS)),
+        chains=dict(units=[R.render(R.unit(*u)) for u in (CHAIN_UNITS_THOROUGH if tier == "thorough" else CHAIN_UNITS)],
+                    shapes=["(a*|/b) op c", "c op (a*|/b)", "(a**p) op c", "c op (a**p)"],
+                    third_operand="every chain unit or the plain number 2", magnitudes=CHAIN_MAGS,
+                    power_bases=[R.render(R.unit(*u)) for u in CHAIN_POW_UNITS],
+                    powers=["%d/%d as %s" % (n, d, f) for (n, d), f in CHAIN_POWERS]),
         caps_hit=[],
         table_leaks_restored=total.extra.get("table_leaks_restored", 0),
     )
 
 MANIFEST = dict(
     text="Bounded exhaustive comparison of Quantity + - * / neg ** with arithmetic on base-dimension values: all "
-         "ordered operand pairs over 19 core units (prefixed, compound, fractional-dimension, dimensionless) plus a "
+         "ordered operand pairs over 23 core units (prefixed, compound, fractional-dimension, dimensionless, %*m-like) plus a "
          "seed-selected window of 11-12 further linear table units (thorough: every linear table unit, plain and "
          "prefixed: 194 units, all 37 636 ordered pairs, ~1.2 million cases), magnitudes {0,2,-3,0.5,1e10} and arrays, a plain int/float on either side of every operator, "
          "18 exponents n/d (d<=6) in int/pair/float/Fraction form. Checked per case: base value (rel 1e-12), "
          "dimension vector, units bookkeeping (left units for sums, exponent sums, exponent*p, folding when all "
-         "dimensions vanish), refusal of sums of different dimension.",
+         "dimensions vanish), refusal of sums of different dimension (incl. number +- angle). Chains: operands that "
+         "are results of * / ** ((a op1 b) op2 c, c op2 (a op1 b), (a**p) op2 c) over 10 units (18 in thorough).",
     note="Trusted: the published unit tables as data, float64 arithmetic of the reference, the reading of units() "
          "text through the table's spelling dictionary. Units bookkeeping is not demanded where the expected units "
          "have linearly dependent dimension vectors (partial cancellation, dimensionless units) and for negation; "
